@@ -85,6 +85,21 @@ def gen_bundles(rng, w, thorough):
             out.append(bundle(ver, b'https://example.com/', None, None, [exch(u, 200, [], b'x')]))
         out.append(bundle(ver, b'', None, None, [exch(b'https://example.com/', 200, [], b'x')]))
         out.append(bundle(ver, b'', None, None, []))
+        # URLs whose string is not valid UTF-8 / has control characters (url.Parse takes them; a text string cannot carry them)
+        for u in (b'https://example.com/manifest.json?v=\xff', b'https://example.com/\xe9', b'https://example.com/a?b=\xc3', b'https://example.com/\x00', b'https://example.com/\x7f'):
+            out.append(bundle(ver, u, None, None, [exch(b'https://example.com/', 200, [], b'x')]))
+            if ver == 'b1': out.append(bundle(ver, b'https://example.com/', u, None, [exch(b'https://example.com/', 200, [], b'x')]))
+            out.append(bundle(ver, b'https://example.com/', None, None, [exch(u, 200, [], b'x')]))
+        # a header block just below / above 512 KiB (no CBOR boundary there: a limit somebody might add)
+        for hl in (524200, 524300, 600000):
+            out.append(bundle(ver, b'https://example.com/', None, None, [exch(b'https://example.com/', 200, [(b'Content-Type', [b'text/html']), (b'X-Policy', [b'p' * hl])], b'x'), exch(b'https://example.com/2', 200, [], b'y')]))
+        # signatures section: every presence pattern of ocsp / sct on the authorities (incl. sct without ocsp), one and two certificates
+        if w is not None:
+            k1_, k2_ = w.keys[0], w.keys[1]
+            for a1 in ('nil:nil', f'{hexs(b"o")}:nil', f'nil:{hexs(b"SCT1")}', f'{hexs(b"o")}:{hexs(b"SCT1")}', '-:-'):
+                for a2 in (None, 'nil:nil', f'nil:{hexs(b"SCT-OF-INTERMEDIATE")}', f'{hexs(b"o2")}:nil'):
+                    auths = f'{k1_["cert"]}:{a1}' + (f'+{k2_["cert"]}:{a2}' if a2 else '')
+                    out.append(bundle(ver, b'https://example.com/', None, f'{auths}/0:{hexs(b"sig")}:{hexs(b"signed")}', [exch(b'https://example.com/', 200, [], b'x')]))
         # optional / positional fields left out (b1: the primary URL is a positional element of the top-level array)
         out.append(bundle(ver, None, None, None, [exch(b'https://example.com/', 200, [], b'x')]))
         out.append(bundle(ver, None, b'https://example.com/m' if ver == 'b1' else None, None, []))
